@@ -62,6 +62,61 @@ def _g(a, t):
     return s if pol else f'not({s})'
 
 
+SHAPES = {
+    # method -> allowed (left cut, right cut, pieces) — the text-level meaning of the list operation.
+    #   p+/P1 = start of the path / of its segments (after a leading "/"), p- = end of the path, E2 = start of a trailing "./" shield,
+    #   VI = the "/" the backward search of pop stopped at
+    'push': [
+        (('p-',), ('p-',), [('x',)], 'empty path: the segment becomes the path content'),
+        (('p+', 'P1'), ('p+', 'P1'), [('lit', b'./'), ('x',)], 'empty path: the segment behind a "./" shield'),
+        (('p-',), ('p-',), [('lit', b'/'), ('x',)], 'non-empty path: "/" and the segment are appended at the end'),
+        (('E2',), ('p-',), [('lit', b'/'), ('x',)], 'path ending with the "/./" shield: the "./" is replaced by "/" and the segment'),
+    ],
+    'pop': [
+        (('p-',), ('p-',), [('lit', b'..')], 'empty relative path: ".." is appended'),
+        (('p-',), ('p-',), [('lit', b'/'), ('lit', b'..')], 'path ending in "..": "/.." is appended'),
+        (('E2',), ('p-',), [('lit', b'/'), ('lit', b'..')], 'the same, behind a "/./" shield'),
+        (('VI',), ('p-',), [], 'everything from the last "/" on is removed'),
+        (('p+', 'P1'), ('p-',), [], 'single segment: the path content is removed'),
+    ],
+    'clear': [
+        (('p+', 'P1'), ('p-',), [], 'the path content is removed (a leading "/" stays)'),
+    ],
+}
+
+
+def list_shapes(run, P):
+    """text-level list semantics: on every symbolic path, the splice a handle operation performs is one of the shapes of SHAPES"""
+    from .. import closure, pathclosure
+    for m, arg in (('push', ('arg', 'x')), ('pop', None), ('clear', None)):
+        for sa in (False, True):
+            for p in pathmut.run_method(P, pathmut.PRE + m, arg, standalone=sa):
+                if p.aborted or not p.splices:
+                    continue
+                run.count('shape_paths')
+                guards = ' & '.join(_g(a, t) for a, t in p.assume if a[0] != 'nonneg')
+                key = f'shape|{m}|{"standalone" if sa else "inplace"}|{guards[:100]}'
+                try:
+                    if sa:
+                        p.markers['pstart'] = 'p+'
+                    pathclosure.cut_setup(p)
+                    sp = p.splices[0]
+
+                    def pos(e):
+                        e = e if isinstance(e, Aff) else Aff({}, e)
+                        if sa and e.is_const():
+                            return {0: 'p+', 1: 'P1'}.get(e.c) or closure.position(p, e)
+                        return closure.position(p, e)
+                    cL, cR = pos(sp[1]), pos(sp[2])
+                    pcs = closure.pieces_of(p, sp, xnames=('x', 'NORM'))
+                except closure.Unhandled as e:
+                    run.violation(key, f'{pathmut.PRE + m}: effect outside the modelled subset ({e}); failing closed')
+                    continue
+                if len(p.splices) != 1 or not any(cL in a and cR in b and pcs == c for (a, b, c, _) in SHAPES[m]):
+                    run.violation(key, f'{pathmut.PRE + m} ({"stand-alone" if sa else "inside a URI/IRI"}) [{guards}]: replaces [{cL},{cR}) by {pcs or "nothing"} — not one of the shapes of {m} '
+                                  f'({"; ".join(d for (_, _, _, d) in SHAPES[m])})')
+
+
 def wiring(run, P):
     b = P.body('common::reference::RiRefBufImpl::path_mut')
     if b is None:
@@ -99,6 +154,10 @@ def main(run):
         return run.finish('other', {'explanation': 'anchor lost', 'evaluations': 1, 'distinct_nontrivial': 2})
     n = handle_paths(run, P)
     wiring(run, P)
+    list_shapes(run, P)
+    for msg in sorted(set(pathmut.POP_LOOP_ISSUES)):
+        run.violation('pop-loop|start', f'PathMutImpl::pop: {msg} — the segment it removes need not be the last one')
+    run.floor('shape_paths', 60, 'handle paths whose splice shape was classified')
     # frame: after every handle operation the decomposition of the enclosing buffer is "path = the edited window, every other
     # component unchanged"; an absolute path stays absolute, a relative one relative (Engine D3)
     from .. import pathclosure
